@@ -1,5 +1,6 @@
 mod c03;
 mod c10;
+mod crashx;
 mod drivers;
 mod enumx;
 mod fileck;
@@ -37,6 +38,7 @@ fn main() {
                 "seqx" => seqx::worker(idx),
                 "enumx" => enumx::worker(idx),
                 "metax" => metax::worker(idx),
+                "crashx" => crashx::worker(idx),
                 _ => usage(),
             }
         }
@@ -75,6 +77,7 @@ fn main() {
                 Some("seqx") => seqx::replay(&v),
                 Some("enumx") => enumx::replay(&v),
                 Some("metax") => metax::replay(&v),
+                Some("crashx") => crashx::replay(&v),
                 _ => {
                     eprintln!("unknown engine in replay file");
                     2
@@ -107,6 +110,16 @@ fn run_check(id: &str, tier: Tier) -> i32 {
                 "strict profile (debug assertions, overflow checks); page size 1024 (quick), 1024 and 4096 (thorough)".into(),
             ];
             enumx::run(&mut c);
+            c.finish()
+        }
+        "C02" => {
+            let mut c = Check::new(id, tier, "fault_enumeration");
+            c.assumptions = vec![
+                "crash model: everything before the last completed fsync is durable; ops issued since then persist in any subset, a write may be torn at 512-byte sectors, the header write at 8-byte words; file length = max(durable length, persisted extensions, extent of persisted writes)".into(),
+                "the write path is observed at the libc boundary (write/fsync/fallocate on the database fd) inside the harness process; tmpfs is the device".into(),
+                "creation of a new file is not a commit and is outside the property".into(),
+            ];
+            crashx::run(&mut c);
             c.finish()
         }
         "C12" => {
